@@ -51,10 +51,22 @@ def fnnls_cholesky(
     s_chol = np.zeros(n)
 
     if P_initial.shape[0] != 0:
-        P_number = np.arange(len(P), dtype="int")
-        P_inorder = P_number[P_initial]
-        s_chol[P] = lstsq((ZTZ)[P][:, P], (ZTx)[P])
-        d = s_chol.clip(min=0)
+        # The guessed passive set is only a valid starting point if the least-squares solution
+        # restricted to it is strictly positive, so shrink it until that is the case.
+        while np.any(P):
+            s_chol[:] = 0.0
+            s_chol[P] = lstsq((ZTZ)[P][:, P], (ZTx)[P])
+            if np.min(s_chol[P]) > tolerance:
+                break
+            P[s_chol <= tolerance] = False
+        s_chol[~P] = 0.0
+        d = s_chol.copy()
+        w = ZTx - (ZTZ) @ d
+        P_inorder = np.arange(len(P), dtype="int")[P]
+        if len(P_inorder):
+            # The main loop updates the Cholesky factorisation of the passive set, so initialize it here.
+            U = slg.cholesky(ZTZ[P_inorder][:, P_inorder])
+            loop_count = 1
     else:
         P_inorder = np.array([], dtype="int")
 
